@@ -33,6 +33,11 @@ _ESCAPED_CHARACTER_REGEX = re.compile(
 )
 
 
+_ESCAPE_SEQUENCE_REGEX = re.compile(
+    _ESCAPED_UNICODE_REGEX.pattern + "|" + _ESCAPED_CHARACTER_REGEX.pattern
+)
+
+
 def _find_token(
     node: Union["Token", "Tree", list], searched_token_type: str
 ) -> Optional["Token"]:
@@ -85,6 +90,20 @@ def _replace_escaped_character(match: "Match") -> str:
         match.group(0)
     )
     return replacement if replacement is not None else ""
+
+
+def _replace_escape_sequence(match: "Match") -> str:
+    """
+    Replaces an escape sequence (escaped unicode or escaped character) to its
+    string value.
+    :param match: the match object
+    :type match: Match
+    :return: the string value of the escape sequence
+    :rtype: str
+    """
+    if match.group(0).startswith("\\u"):
+        return _replace_escaped_unicode(match)
+    return _replace_escaped_character(match)
 
 
 def _override_tree_children(tree: "Tree", new_child: Any) -> "Tree":
@@ -167,9 +186,10 @@ class TokenTransformer(Transformer_InPlace):
         slicing = 3 if is_block_string else 1
         value = token.value[slicing:-slicing]
         if not is_block_string:
-            value = _ESCAPED_UNICODE_REGEX.sub(_replace_escaped_unicode, value)
-            value = _ESCAPED_CHARACTER_REGEX.sub(
-                _replace_escaped_character, value
+            # Escape sequences are replaced in a single pass: an escaped
+            # backslash followed by `uXXXX` isn't an escaped unicode
+            value = _ESCAPE_SEQUENCE_REGEX.sub(
+                _replace_escape_sequence, value
             )
         return _override_tree_children(
             tree,
